@@ -105,13 +105,20 @@ def hygiene_scan():
 def make_targets(targets, timeout=3000):
     with Lock("coq"):
         rc, out = run([sys.executable, os.path.join(ROOT, "tools", "extract_consts.py")], cwd=ROOT)
+        consts_err = None
         if rc != 0:
-            return False, "extract_consts failed:\n" + out
+            # the source no longer has the shape the extractor knows: a broken obligation; keep the
+            # previous Gen/Consts.v (if any) so that the search for a failing input can still run
+            consts_err = "extract_consts failed (constants could not be regenerated from the source):\n" + out
+            if not os.path.exists(os.path.join(COQ, "theories", "Gen", "Consts.v")):
+                return False, consts_err
         if not os.path.exists(os.path.join(COQ, "Makefile")):
             rc, out = run(["coq_makefile", "-f", "_CoqProject", "-o", "Makefile"], cwd=COQ)
             if rc != 0:
                 return False, out
         rc, out = run(["timeout", str(timeout), "make", "-j16"] + targets, cwd=COQ)
+        if rc == 0 and consts_err:
+            return False, consts_err
         return rc == 0, out
 
 
@@ -122,6 +129,9 @@ def proof_gate(pid, cfg):
     targets = [f"theories/Properties/{pid}.vo"] + [f"theories/Run/{m}.vo" for m in cfg.get("run_modules", [pid])]
     ok, out = make_targets(targets)
     if not ok:
+        if out.startswith("extract_consts failed (constants"):
+            info["errors"].append(out[-3000:])
+            return False, info
         info["errors"].append("coq build failed: " + out[-3000:])
         return False, info
     bad = hygiene_scan()
